@@ -1,5 +1,6 @@
-"""Tie B for M5 (Model/Serial.lean): the real `to_dict / from_dict / to_json / from_json / copy` of every message and
-struct class against the Lean model (per leaf field), plus the Spec of C10 evaluated on what the real code did.
+"""Tie B for M5 (Model/Serial.lean, Model/Json.lean, Model/Heap.lean): the real `to_dict / from_dict / to_json /
+from_json / copy` of every message and struct class against the Lean model (whole dictionaries, JSON text, storage
+scripts, and per leaf field as before), plus the Spec of C10 evaluated on what the real code did.
 
 Case grammar sent to `drv_serial`:
     SER <id>
@@ -410,11 +411,17 @@ def run_case(cid: str, cls, m) -> List[str]:
     import zlib as _zlib
     vr = _random.Random(_zlib.crc32(b0 + cls.__name__.encode()))
     probes = [("self", m.to_dict())]
-    try:
-        probes.append(("json", json.loads(m.to_json(minify=True))))
-    except Exception:  # noqa: BLE001
-        pass
-    probes += dict_variants(W, cls, m.to_dict(), vr)
+    if len(b0) <= 2048:           # (big classes: the json.loads image is covered by the model's own fromJson on the text)
+        try:
+            probes.append(("json", json.loads(m.to_json(minify=True))))
+        except Exception:  # noqa: BLE001
+            pass
+    variants = dict_variants(W, cls, m.to_dict(), vr)
+    if len(b0) > 2048 and len(variants) > 2:
+        # the model stores array elements one by one like ctypes does (quadratic in the field size): big classes get two
+        # of the altered dictionaries per case, chosen at random, instead of all of them
+        variants = vr.sample(variants, 2)
+    probes += variants
     for pname, v in probes:
         toks = " ".join(val_tokens(W, v))
         lines.append(f"FD {pname} " + _trip(lambda v=v: cls.from_dict(_copy.deepcopy(v))).split(":")[0] + " " + toks)
